@@ -83,6 +83,7 @@ func everyIterationPasses(P *Prog, fn *ssa.Function, over string, ev func(*CallS
 
 func checkC13(r *Result) {
 	P := r.P
+	defer checkLostUpdates(r, "C13")
 	r.Explanation = "Structural rules for dispute settlement, decided on the SSA of the dispute keeper: execution, reward claims and fee refunds are once-only (the flag test dominates every payout and every paying success path stores the flag / removes the record); the outcome switches are exhaustive over the VoteResult enum or fail closed; a fee payer's record accumulates (read-modify-write) and every function that takes a dispute fee records its payer; the refund, bond reward and voter reward have the pro-rata algebraic normal form own*pot/total with a pot that does not depend on the claimant; half of BurnAmount is burned and the other half is the voters' pot (all of it burned when nobody voted); the voter-reward totals accumulate over every round; and the refund base of each branch is the amount that was not burned."
 	r.NotDecided = "conservation of the sums over all outcomes and claim orders; that no claim ever fails for lack of funds; the amounts of the outcome-dependent flows beyond the shapes above"
 	r.Assumptions = []string{"a failed transaction is rolled back, so ordering inside a handler matters only on success paths", "x/bank moves exactly the coins it is given"}
@@ -625,6 +626,9 @@ func checkC13(r *Result) {
 		if fn := need("(x/dispute/keeper.Keeper).SetNewDispute"); fn != nil {
 			sl, bu := one(storesOf(fn, "SlashAmount")), one(storesOf(fn, "BurnAmount"))
 			r.check(sl == "disputeFee^1" && bu == "1/20 * disputeFee^1", "BURN-HALF", "(x/dispute/keeper.Keeper).SetNewDispute # the amount at stake is the dispute fee and the burn amount is a twentieth of it", P.Pos(fn.Pos()), "SlashAmount = "+sl+" ; BurnAmount = "+bu)
+		}
+		if fn := need("(x/dispute/keeper.Keeper).SetNewDispute"); fn != nil {
+			checkSameAmountVersion(r, "PAY-RECORD", fn)
 		}
 		if fn := need("(x/dispute/keeper.msgServer).AddFeeToDispute"); fn != nil {
 			ft := one(storesOf(fn, "FeeTotal"))
@@ -1237,4 +1241,115 @@ func voteGroupsFeeding(fn *ssa.Function, v ssa.Value) map[string]bool {
 	}
 	walk(v, 0)
 	return out
+}
+
+// checkSameAmountVersion: the proposer's fee is capped to the dispute fee by an assignment to the message's own field; the
+// amount booked as the dispute's fee total, the amount credited to the payer record and the coin handed to PayDisputeFee
+// must be one and the same version of that amount: the same SSA value, or reads of the same field with no assignment to
+// it between them. A copy taken before the cap credits the payer with more than was moved.
+func checkSameAmountVersion(r *Result, rule string, fn *ssa.Function) {
+	P := r.P
+	type booked struct {
+		what string
+		v    ssa.Value
+		pos  token.Pos
+	}
+	var bs []booked
+	for _, cs := range P.CallSitesIn(fn) {
+		if cs.Callee == "(x/dispute/keeper.Keeper).PayDisputeFee" && cs.Fn == fn {
+			bs = append(bs, booked{"payment", Arg(cs.Instr, 2), cs.Pos()})
+		}
+	}
+	for _, b := range fn.Blocks {
+		for _, in := range b.Instrs {
+			if st, ok := in.(*ssa.Store); ok {
+				if fa, ok := st.Addr.(*ssa.FieldAddr); ok {
+					switch fieldName(fa.X.Type(), fa.Field) {
+					case "x/dispute/types.Dispute.FeeTotal":
+						bs = append(bs, booked{"fee total", st.Val, st.Pos()})
+					case "x/dispute/types.PayerInfo.Amount":
+						bs = append(bs, booked{"payer credit", st.Val, st.Pos()})
+					}
+				}
+			}
+		}
+	}
+	r.check(len(bs) >= 3, rule, FuncName(fn)+" # fee total, payer credit and payment found", P.Pos(fn.Pos()), fmt.Sprintf("%d booked amounts", len(bs)))
+	for i := 1; i < len(bs); i++ {
+		ok, why := sameVersion(fn, bs[0].v, bs[i].v)
+		r.check(ok, rule, FuncName(fn)+" # "+bs[i].what+" is the same (capped) amount as the "+bs[0].what, P.Pos(bs[i].pos), why)
+	}
+}
+
+// amountPath: v as a read of root.path (field addresses below a local or parameter allocation); NewCoin(_, x) is read as x.
+func amountPath(v ssa.Value) (ld *ssa.UnOp, root ssa.Value, path []int) {
+	for i := 0; i < 4; i++ {
+		if c, ok := v.(*ssa.Call); ok && c.Common().StaticCallee() != nil && c.Common().StaticCallee().Name() == "NewCoin" && len(c.Common().Args) == 2 {
+			v = c.Common().Args[1]
+			continue
+		}
+		break
+	}
+	u, ok := v.(*ssa.UnOp)
+	if !ok || u.Op != token.MUL {
+		return nil, v, nil
+	}
+	root = u.X
+	for {
+		f, ok := root.(*ssa.FieldAddr)
+		if !ok {
+			break
+		}
+		path = append([]int{f.Field}, path...)
+		root = f.X
+	}
+	return u, root, path
+}
+
+func pathsOverlap(a, b []int) bool {
+	for i := 0; i < len(a) && i < len(b); i++ {
+		if a[i] != b[i] {
+			return false
+		}
+	}
+	return true
+}
+
+func sameVersion(fn *ssa.Function, a, b ssa.Value) (bool, string) {
+	la, ra, pa := amountPath(a)
+	lb, rb, pb := amountPath(b)
+	if la == nil || lb == nil {
+		if ra == rb {
+			return true, "the same value"
+		}
+		return false, "not the same value and not two reads of one field: " + a.String() + " / " + b.String()
+	}
+	if ra != rb || !pathsOverlap(pa, pb) {
+		return false, "reads of different places"
+	}
+	for _, blk := range fn.Blocks {
+		for _, in := range blk.Instrs {
+			st, ok := in.(*ssa.Store)
+			if !ok {
+				continue
+			}
+			var sp []int
+			sr := st.Addr
+			for {
+				f, ok := sr.(*ssa.FieldAddr)
+				if !ok {
+					break
+				}
+				sp = append([]int{f.Field}, sp...)
+				sr = f.X
+			}
+			if sr != ra || !(pathsOverlap(sp, pa) || pathsOverlap(sp, pb)) {
+				continue
+			}
+			if (reachAvoid(la, st, nil) && reachAvoid(st, lb, nil)) || (reachAvoid(lb, st, nil) && reachAvoid(st, la, nil)) {
+				return false, "the field is assigned between the two reads: one of them is the amount before the cap"
+			}
+		}
+	}
+	return true, "two reads of one field, no assignment between them"
 }
